@@ -103,7 +103,9 @@ def gen(rng, tier):
       elif k < 0.87:
         name = 'MAC%d' % rng.randint(0, 2)
         if name not in macros:
-          macros[name] = 'mv%d' % uid[0]
+          # (a macro's value may be falsy like any other value)
+          macros[name] = rng.choice(['mv%d' % uid[0], 'mv%d' % uid[0], 0, '',
+                                     None, False, []])
           ops.append({'op': 'macro', 'name': name, 'val': macros[name]})
         val = {'macro': name}
       else:
